@@ -14,4 +14,5 @@ def run(rep, fb, tier):
     forth.rule_forth_semantics(rep, fb)
     forth.rule_forth_output(rep, fb)
     forth.rule_forth_input(rep, fb)
+    forth.rule_forth_width(rep, fb)
     rep.units = fb.units
